@@ -85,7 +85,8 @@ class Run:
             for fn, text in defines.items():
                 with open(os.path.join(d, fn), "w") as fh:
                     fh.write(text)
-        jopts = ["-Xmx" + heap, "-Xss64m", "-XX:+UseParallelGC"]
+        os.makedirs(os.path.join(d, "jtmp"))
+        jopts = ["-Xmx" + heap, "-Xss64m", "-XX:+UseParallelGC", "-Djava.io.tmpdir=" + os.path.join(d, "jtmp")]
         if deque:
             jopts.append("-Dtlc2.tool.queue.IStateQueue=StateDeque")
         cmd = ["java"] + jopts + ["-cp", TLA_CP, "tlc2.TLC", "-workers", str(workers),
